@@ -154,10 +154,18 @@ def rule_seq(repo: Repo, rep: Report) -> int:
     init = repo.method(ci, "__init__")
     asg = [s for s in stmts_of(init.body) if isinstance(s, ast.Assign) and any(attr_chain(t) == "self.steps" for t in s.targets)]
     for s in asg:
-        ok = match(s.value, "list(steps)") is not None or match(s.value, "steps") is not None or match(s.value, "[*steps]") is not None
+        # every alternative of the stored value must be a fresh list with the caller's stages in the caller's order: the
+        # class edits self.steps in place (add_step appends, remove_step pops), so storing the caller's own list object
+        # lets two pipelines declared from the same list (or the caller) change each other's stages
+        arms = [s.value]
+        while any(isinstance(a_, ast.IfExp) for a_ in arms):
+            arms = [b_ for a_ in arms for b_ in ((a_.body, a_.orelse) if isinstance(a_, ast.IfExp) else (a_,))]
+        copies = ("list(steps)", "[*steps]", "steps.copy()", "steps[:]", "list(steps or [])", "list(steps) if steps else []")
+        ok = all(any(match(a_, c_) is not None for c_ in copies) for a_ in arms)
+        aliased = [a_ for a_ in arms if isinstance(a_, ast.Name) and a_.id == "steps"]
         vt = unparse(s.value)
-        wrong = any(k in vt for k in ("reversed(", "sorted(", "[::-1]", "set(", "shuffle")) or (isinstance(s.value, ast.Subscript) and isinstance(s.value.slice, ast.Slice))
-        rep.shape(ok, wrong, "SEQ-LIST", init, s, "stage list = the caller's sequence, same order", "the stored stage list is not the caller's sequence in its order", node=s)
+        wrong = bool(aliased) or any(k in vt for k in ("reversed(", "sorted(", "[::-1]", "set(", "shuffle")) or (isinstance(s.value, ast.Subscript) and isinstance(s.value.slice, ast.Slice) and unparse(s.value) != "steps[:]")
+        rep.shape(ok, wrong, "SEQ-LIST", init, s, "stage list = a fresh list of the caller's sequence, same order", "the stored stage list is not a private copy of the caller's sequence in its order (the caller's own list object is kept, or the order is changed): add_step / remove_step edit it in place, so pipelines declared from one list object change each other's stages", node=s)
         n += 1
     rep.floor("SequentialModel.__init__ stage-list assignments", len(asg), 1)
     cb = repo.cls(BASE, "ConfigurableModel")
